@@ -3,6 +3,7 @@
 //! `tvh replay <path>`. See /verif/DESIGN.md.
 
 mod drivers;
+mod models;
 mod engine;
 mod props;
 
